@@ -393,6 +393,8 @@ def py_script(f, ops):
             else:
                 out.append([1, f.readall()])
         except Exception as e:
+            if isinstance(e, lib.Hang):
+                raise
             out.append([2, type(e).__name__])
     return out
 
@@ -490,6 +492,8 @@ def run_reads(ctx):
                                 res = py_script(f, ops)
                             f.close()
                         except Exception as e:
+                            if isinstance(e, lib.Hang):
+                                raise       # reported once by lib.corr_run; do not wait for every further file
                             ctx.case((v, path, 'exception'), True, 'reads:exception')
                             ctx.violation('fs.read/exception', f'opening {path!r} ({kind}, chain {nd["chain"]}, size {nd["size"]}) on a '
                                           f'well-formed {ft} volume (cs {cs}) raised {type(e).__name__}: {e}',
